@@ -343,6 +343,7 @@ def run(repo, tier):
     r.rule("R2.1", "each real algorithm returns the exact limit at -inf, -0, +0, +inf and at the ends of its domain, and NaN exactly at the special points where the function is undefined", floor=40)
     r.rule("R2.3", f"forward error analysis: on every box of a partition of all inputs the rounding-error bound of the expression DAG is at most {ERR_BOUND_U:.0f}u (u = 2**-p), or, at single points where the bound is not provable, the exactly evaluated result is within {POINT_ULP:.0f} ULP of the true value", floor=14)
     r.rule("R2.4", f"boundary-value analysis of the region structure: the flips of every select guard along the float line (hypot: along rays and lines) are located by bisection on the IR evaluated at single points; next to every flip, in the middle of every piece and on one point per half binade the exactly evaluated result is within {PROBE_ULP:.0f} ULP of the long-double reference", floor=14)
+    r.rule("R2.5", "the algorithm definitions read their tuning parameters from ctx.parameters and never write to it (no leakage between functions traced on one context)", floor=1)
     r.rule("R2.2", "for every float of the format (adaptive partition of the whole line/plane, interval abstract interpretation): NaN exactly outside the domain, no spurious NaN/inf, correct sign and relative error below the coarse bound", floor=14)
     if np.finfo(LD).maxexp <= 1024:
         raise AnalysisError("numpy.longdouble is not an extended format on this machine; the reference ranges for float64 would overflow")
@@ -387,6 +388,18 @@ def run(repo, tier):
                 r.ob("R2.3", ekey + f" at {lo_}", False, info, where)
         elif res.get("err_ok"):
             r.ob("R2.3", ekey, True, res["err_ok"], where)
+    # R2.5: the algorithms read their tuning parameters, they do not write them (shared clause with C09 R9.5): a default stored in
+    # ctx.parameters while asinh is traced changes the region bounds of the acosh traced next on the same context
+    from rules.C09 import parameter_writes
+    from sa.core import loc as _loc, norm_src as _ns
+
+    pw = parameter_writes(repo, REL)
+    for n in pw:
+        r.ob("R2.5", f"{REL} line-independent: write into ctx.parameters `{_ns(n)[:60]}`", False,
+             f"`{_ns(n)[:120]}` stores a value in the context's parameters while an algorithm is traced: the real algorithms share parameter names "
+             "(safe_max_limit_coefficient means sqrt(largest)*c in asinh and largest*c in acosh), so the next algorithm traced on the same context "
+             "uses another region bound and returns inf for finite inputs", _loc(REL, n))
+    r.ob("R2.5", f"{REL}: the algorithm definitions only read ctx.parameters", not pw, "", _loc(REL, repo.tree(REL)))
     for (root, ftype, name, _), res in zip(tasks, presults):
         where = f"functional_algorithms/{REL}::{name}"
         if res["error"] and not res["failures"]:
